@@ -1,4 +1,10 @@
-(* C36 — graceful shutdown (collector part): correspondence + monitor. *)
+(* C36 — graceful shutdown: correspondence + monitor.
+   Two kinds of cases: CColl = a collector history cut by InMemCollector.Stop (recording transmission);
+   CShut = the whole in-process shutdown sequence: collector in front of a REAL upstream
+   DirectTransmission (+ a real peer transmission) against scripted fake APIs, collector Stop and then
+   the transmissions' Stop (observations of the transmissions in family txcfg's Monitor.C26.case format,
+   checked against family txcfg's Model/Transmit.v). *)
+From Refinery Require Monitor.C26.
 From Refinery Require Export Monitor.CollCase_coll.
 
 (* Monitor over the implementation's observation of a history that ends with Stop:
@@ -9,13 +15,13 @@ From Refinery Require Export Monitor.CollCase_coll.
    13  Stop forwarded spans of a trace whose remembered decision is drop, or forwarded a span twice
    14  a trace that left a buffer during Stop has no decision on record
    15  Stop forwarded spans of a trace that has no decision on record *)
-Definition stop_item (k : case) : option item :=
+Definition stop_item (k : CollCase_coll.case) : option item :=
   match rev (k_items k) with
   | it :: _ => match i_op it with IStop _ => Some it | _ => None end
   | [] => None
   end.
 
-Definition check (k : case) : codes :=
+Definition check_coll (k : CollCase_coll.case) : codes :=
   (if model_agrees k then [] else [code_mismatch]) ++
   match stop_item k with
   | None => []
@@ -30,3 +36,57 @@ Definition check (k : case) : codes :=
             | _ => true end) 14 ++
       cond (forallb (fun e => mem_N (ev_tid e) (i_forgot it) || negb (N.eqb (nthN (o_dec it) (ev_tid e) 0%N) 0)) (o_fwd it)) 15
   end.
+
+(* ---------- the shutdown sequence with real transmissions ---------- *)
+Record shut := { s_coll : CollCase_coll.case; s_up : Monitor.C26.case; s_peer : Monitor.C26.case }.
+Inductive c36case := CColl (k : CollCase_coll.case) | CShut (s : shut).
+
+(* Transmission side.  Codes of family txcfg's C26 monitor are re-numbered 20 + (code - 10):
+   20  an event enqueued before shutdown (<= 1 MB, well-formed destination) was in no request: lost by the flush
+   21  an event was placed in more than one request        22 request addressed to another destination than its events
+   23  body > 5 MB      24 more than MaxBatchSize events   25 (timeliness; cannot fire here)   26 attempted more than twice
+   27  queued-items gauge not zero after Stop              28 oversize event sent / not counted    29 event never enqueued
+   C36's own:
+   30  a batch whose first attempt was answered 429/503 with a Retry-After sleep in (0, 60 s), or timed out, was not
+       attempted again (its events are lost) — in particular a batch of the shutdown flush
+   31  outcome accounting: response_20x + response_errors + (events of batches whose last attempt was a transport
+       failure, each such batch counted by a send_errors increment) differs from the number of events enqueued —
+       some event has no counted outcome, or two
+   32  the spans the collector handed to the upstream transmission are not the events the transmission was given
+   (a transmission's Stop returning an error, panicking or hanging is reported through code 11) *)
+Definition renum (c : N) : N := if N.eqb c code_mismatch then c else (c + 10)%N.
+
+Definition first_resp_retryable (t : Monitor.C26.case) (first : N) : bool :=
+  match Monitor.C26.beh_of t first with
+  | Transmit.RTimeout :: _ => true
+  | Transmit.RHttp code sl _ :: _ =>
+      Transmit.retryable_status code && (0 <? sl) && (sl <? Transmit.retryLim Monitor.C26.mon_limits)
+  | _ => false
+  end.
+
+(* the last attempt of a request ended in a transport error (timeout / network): its events are
+   accounted by ONE send_errors increment for the batch, not per event *)
+Definition last_failed (t : Monitor.C26.case) (r : Monitor.C26.obs_req) : bool :=
+  match nth_error (Monitor.C26.beh_of t (Monitor.C26.o_first r)) (N.to_nat (Monitor.C26.o_attempts r) - 1) with
+  | Some Transmit.RTimeout | Some Transmit.RNetErr => true
+  | _ => false
+  end.
+Definition transport_failed_events (t : Monitor.C26.case) : Z :=
+  fold_right Z.add 0 (map (fun r => if last_failed t r then Z.of_nat (length (Monitor.C26.o_ids r)) else 0) (Monitor.C26.c_reqs t)).
+
+Definition tx_codes (t : Monitor.C26.case) : codes :=
+  map renum (Monitor.C26.check t) ++
+  cond (forallb (fun r => negb (N.eqb (Monitor.C26.o_attempts r) 1 && first_resp_retryable t (Monitor.C26.o_first r)))
+                (Monitor.C26.c_reqs t)) 30 ++
+  cond (Z.eqb (nth 0 (Monitor.C26.c_cnt t) 0 + nth 1 (Monitor.C26.c_cnt t) 0 + transport_failed_events t)
+              (Z.of_nat (length (Transmit.enqueued (Monitor.C26.c_ops t)))) &&
+        (Z.of_nat (length (filter (last_failed t) (Monitor.C26.c_reqs t))) <=? nth 2 (Monitor.C26.c_cnt t) 0)) 31.
+
+Definition check_shut (s : shut) : codes :=
+  check_coll (s_coll s) ++ tx_codes (s_up s) ++ tx_codes (s_peer s) ++
+  cond (list_eqb N.eqb (nsort (map (fun e : ev => snd (fst e)) (all_fwd (k_items (s_coll s)))))
+                       (nsort (map Transmit.eid (Transmit.enqueued (Monitor.C26.c_ops (s_up s)))))) 32.
+
+Definition case := c36case.
+Definition check (k : case) : codes :=
+  match k with CColl c => check_coll c | CShut s => check_shut s end.
